@@ -341,7 +341,7 @@ func init() {
 		Title: "IntSet and IntMap are persistent",
 		Plan: func(tier string, seed int64) []run.Job {
 			var jobs []run.Job
-			nrand, per := 16, 4000
+			nrand, per := 16, 15000
 			depth := 3
 			if tier == "thorough" {
 				nrand, per, depth = 32, 40000, 4
